@@ -194,7 +194,7 @@ var _ = sdk.AccAddress{}
 func init() {
 	RegisterLab(&LabDef{
 		ID:      "C12lab",
-		Inputs:  map[string]int{"quick": 6000, "thorough": 120000},
+		Inputs:  map[string]int{"quick": 12000, "thorough": 160000},
 		Batches: map[string]int{"quick": 8, "thorough": 16},
 		One:     c12LabOne,
 	})
